@@ -219,9 +219,32 @@ impl<'a> Gen<'a> {
         if self.m.step(&i).is_err() {
             self.stopped = true;
         }
-        self.dead_buckets.extend(b0.into_iter().filter(|b| !self.m.buckets.contains_key(b)));
-        self.dead_proofs.extend(p0.into_iter().filter(|p| !self.m.proofs.contains_key(p)));
+        let died_b: Vec<u32> = b0.into_iter().filter(|b| !self.m.buckets.contains_key(b)).collect();
+        let died_p: Vec<u32> = p0.into_iter().filter(|p| !self.m.proofs.contains_key(p)).collect();
+        self.dead_buckets.extend(died_b.iter().cloned());
+        self.dead_proofs.extend(died_p.iter().cloned());
         self.out.push(i);
+        // deliberate use-after-consume right behind the consuming instruction
+        if !self.stopped && self.rng.below(100) < self.p.bad_id_pct * 2 {
+            if let Some(b) = died_b.first().cloned() {
+                let a = self.acct();
+                let again = match self.rng.below(5) {
+                    0 => Ins::Return { bucket: b },
+                    1 => Ins::Burn { bucket: b },
+                    2 => Ins::Deposit { acct: a, bucket: b, kind: DepKind::TryAbort },
+                    3 => Ins::ProofFromBucketAll { bucket: b },
+                    _ => Ins::DepositBatch { acct: a, buckets: vec![b], kind: DepKind::TryAbort },
+                };
+                self.push(again);
+            } else if let Some(p) = died_p.first().cloned() {
+                let again = match self.rng.below(3) {
+                    0 => Ins::DropProof { proof: p },
+                    1 => Ins::CloneProof { proof: p },
+                    _ => Ins::PushAz { proof: p },
+                };
+                self.push(again);
+            }
+        }
     }
 
     fn acct(&mut self) -> usize {
